@@ -313,8 +313,16 @@ func (rm *room) defaultPL(creator user) map[string]any {
 	if len(rm.users) > 1 && rm.t.Chance(600) && !(rm.priv && rm.isCreator(rm.users[1].id)) {
 		users[rm.users[1].id] = sim.Pick(rm.t, []int{50, 100, 75})
 	}
-	return map[string]any{"users": users, "users_default": 0, "events_default": 0, "state_default": sim.Pick(rm.t, []int{50, 0, 50}),
+	pl := map[string]any{"users": users, "users_default": 0, "events_default": 0, "state_default": sim.Pick(rm.t, []int{50, 0, 50}),
 		"ban": 50, "kick": 50, "redact": 50, "invite": sim.Pick(rm.t, []int{0, 50}), "events": map[string]any{}}
+	if rm.t.Chance(250) {
+		// a room whose defaults are above the moderators' level, with explicit
+		// lower entries per event type: removing an entry raises its threshold
+		pl["events_default"] = sim.Pick(rm.t, []int{100, 75})
+		pl["events"] = map[string]any{"m.room.message": 0, "m.reaction": sim.Pick(rm.t, []int{0, 50}), "m.room.topic": sim.Pick(rm.t, []int{0, 50})}
+		rm.r.Probe("room_with_defaults_above_moderators")
+	}
+	return pl
 }
 
 func (rm *room) isCreator(id string) bool {
